@@ -236,13 +236,13 @@ def indent_str(cfg):
 WS = (' ', ' ', '  ', '\n', '\n', '\t', '\r\n', '\r', '\n  ', ' \n', '\n\n', '\t ', ' \t', '\n\t\t', '   ', '\n    ')
 WORDS = ('a', 'b', 'xy', 'foo', 'bar', 'Hello', 'x1', 'naïve', '日本', 'é', '.', ',', 'q-r', 'W')
 ODDWS = (' ', ' ', '\x0b', '\x0c', '\x1c', ' ', '\u0085')
-ENTITIES = ('&amp;', '&lt;', '&nbsp;', '&#65;', '&#x41;', '&copy;', '&#10;', '&unknownent;')
-COMMENTS = ('<!-- c -->', '<!---->', '<!--x-->', '<!-- a\n\tb -->', '<!--  two  spaces  -->', '<!-- <b>not a tag</b> -->')
-SCRIPTS = ('x', 'var a = 1;', 'if (a < b && c) {\n\tf();\n}', '\n  f("</b");\n', 'a\n', 'a\n  ', 'a\n    ', '\n', '',
+ENTITIES = ('&amp;', '&lt;', '&nbsp;', '&#65;', '&#x41;', '&copy;', '&#10;', '&unknownent;', '&Auml;', '&AMP;', '&#X4a;', '&Eacute;')
+COMMENTS = ('<!-- c -->', '<!---->', '<!--x-->', '<!-- Mixed Case é -->', '<!-- a\n\tb -->', '<!--  two  spaces  -->', '<!-- <b>not a tag</b> -->')
+SCRIPTS = ('x', 'var a = 1;', 'VAR X = "É";', 'if (a < b && c) {\n\tf();\n}', '\n  f("</b");\n', 'a\n', 'a\n  ', 'a\n    ', '\n', '',
            ' ', '\tb { color: red }\n', 'x\n\n', 'x \n  \n  ', 'a\r\n', '  lead', 'p > q { }')
 
 ATTRS = (
-    ('id', 'x1'), ('id', 'y'), ('title', 'a b'), ('title', ' lead and trail '), ('data-k', 'v "q"'), ('href', '/a?b=1'),
+    ('id', 'x1'), ('id', 'y'), ('title', 'a b'), ('title', 'Mixed Case'), ('data-k', 'CamelCase'), ('title', ' lead and trail '), ('data-k', 'v "q"'), ('href', '/a?b=1'),
     ('checked', None), ('disabled', ''), ('hidden', 'hidden'), ('readonly', None), ('readonly', ''), ('selected', None),
     ('class', ' a  b '), ('class', 'c'), ('class', 'one two  three'), ('class', ''), ('class', 'tab\tin'),
     ('style', 'color: red'), ('style', 'color:red; Top : 1px;'), ('style', ''), ('style', ' ; junk ; a:b'),
@@ -879,9 +879,9 @@ class Check(PropCheck):
             m = ['raise', exc_name(e)]
         if not p.strip_ie:
             return '(skip ie-conditional)'
-        if (m[0] == 'ok' and (self.last_root_is_wrapper or d['via'] == 'parser') or plain[0] == 'ok') \
-                and not lexwrap_ok(p.src) and self._second_pass(p.src):
-            return '(skip lexwrap)'
+        for text in set((p.doc1, p.src)):
+            if not lexwrap_ok(text) and self._second_pass(text):
+                return '(skip lexwrap)'
         if p.src == p.doc1:
             return sx([plain, m])
         return sx([plain], [m])
